@@ -52,6 +52,8 @@ type Checked struct {
 	registeredAt map[int]int
 	curClosure   *Closure
 	rejKeys      []Key
+	groupSeen    map[groupReq]int
+	typeKeys     map[int]map[Key]bool
 	touchAfter   int
 }
 
@@ -64,7 +66,12 @@ func (c *Checked) viol(op int, class, detail string, props ...string) {
 func NewChecked(h *History) *Checked {
 	return &Checked{H: h, R: NewRun(h), M: NewModel(h.Cfg.Defer), Probes: map[string]int{}, Diverged: -1,
 		States: map[uint64]bool{}, okExits: map[int]int{}, lastFail: map[int]bool{}, entered: map[int]int{},
-		prevFail: -1, accepted: map[int]bool{}, rejected: map[int]bool{}, cbExpected: map[int]bool{}, registeredAt: map[int]int{}}
+		groupSeen: map[groupReq]int{}, typeKeys: map[int]map[Key]bool{}, prevFail: -1, accepted: map[int]bool{}, rejected: map[int]bool{}, cbExpected: map[int]bool{}, registeredAt: map[int]int{}}
+}
+
+type groupReq struct {
+	Scope int
+	Key   Key
 }
 
 // RunChecked executes the history op by op; after each op the oracles look at
@@ -150,6 +157,12 @@ func (c *Checked) Step(i int) {
 func (c *Checked) advance(i int, op Op, res *OpResult) {
 	switch op.Kind {
 	case OpScope:
+		for _, x := range c.M.Path(op.Scope) {
+			if len(c.M.S[x].Ctors) > 0 {
+				c.probe("scope_after_provide")
+				break
+			}
+		}
 		c.M.AddScope(op.Scope)
 	case OpProvide:
 		f := &c.H.Funcs[op.Fn]
@@ -170,7 +183,19 @@ func (c *Checked) advance(i int, op Op, res *OpResult) {
 		c.checkAcceptance(i, op, res, pred)
 		switch {
 		case acc && (pred == PredOK || pred == PredCycleEither):
-			c.M.AddCtor(op.Scope, i, f)
+			n := c.M.AddCtor(op.Scope, i, f)
+			for li, r := range n.LR {
+				ct := c.leafType(f, li)
+				for _, k := range r.Keys {
+					if c.typeKeys[ct] == nil {
+						c.typeKeys[ct] = map[Key]bool{}
+					}
+					c.typeKeys[ct][k] = true
+					if len(c.typeKeys[ct]) >= 2 {
+						c.probe("type_under_two_keys")
+					}
+				}
+			}
 		case !acc && pred != PredOK:
 		default:
 			c.Diverged, c.DivNote = i, fmt.Sprintf("provide f%d: model %s, dig %s (%s)", f.ID, pred, res.Verdict, res.Facts.Text)
@@ -197,6 +222,28 @@ func (c *Checked) advance(i int, op Op, res *OpResult) {
 			c.Diverged, c.DivNote = i, fmt.Sprintf("decorate f%d: model %s, dig %s (%s)", f.ID, pred, res.Verdict, res.Facts.Text)
 		}
 	}
+}
+
+// leafType is the concrete payload type of result leaf li of f.
+func (c *Checked) leafType(f *Func, li int) int {
+	k := 0
+	var find func(rs []Result) int
+	find = func(rs []Result) int {
+		for _, r := range rs {
+			if r.Kind == RObj {
+				if t := find(r.Fields); t >= 0 {
+					return t
+				}
+				continue
+			}
+			if k == li {
+				return r.T
+			}
+			k++
+		}
+		return -1
+	}
+	return find(f.Results)
 }
 
 // checkAcceptance compares dig's verdict on a registration with the model's
@@ -711,8 +758,22 @@ func (c *Checked) checkProvenance(i int, op Op, res *OpResult, evs []Event) {
 				if ok && src.Dec != nil && src.Dec.Scope != cons.Scope {
 					c.probe("deco_from_ancestor_scope")
 				}
-				if ok && src.Ctor != nil && src.Ctor.Home != cons.Scope {
-					c.probe("arg_cross_scope")
+				if ok && src.Dec != nil && cons.Self != nil {
+					c.probe("deco_nested")
+				}
+				if ok && src.Ctor != nil {
+					if src.Ctor.Home != cons.Scope {
+						c.probe("arg_cross_scope")
+					}
+					if len(m.AllProv(cons.Scope, p.Key)) > 1 {
+						c.probe("nearest_shadowed")
+					}
+					if src.Ctor.Origin != src.Ctor.Home && !m.IsAnc(src.Ctor.Origin, cons.Scope) {
+						c.probe("export_seen_from_sibling")
+					}
+					if IsIface(p.Key.T) {
+						c.probe("as_value_delivered")
+					}
 				}
 				// decorator input rule: what the decorator itself received
 			}
@@ -777,6 +838,11 @@ func (c *Checked) checkGroupArg(i int, who string, cons Consumer, p LeafParam, a
 		for _, n := range feeders {
 			want = append(want, members(n)...)
 		}
+		gk := groupReq{cons.Scope, p.Key}
+		if prev, ok := c.groupSeen[gk]; ok && len(feeders) > prev {
+			c.probe("feeder_added_between")
+		}
+		c.groupSeen[gk] = len(feeders)
 		sort.Slice(want, func(x, y int) bool { return want[x] < want[y] })
 		if len(feeders) >= 3 {
 			c.probe("group_feeders>=3")
@@ -900,6 +966,24 @@ func (c *Checked) checkInvokeModel(i int, op Op, res *OpResult, evs []Event) {
 	if len(cl.Fns) >= 2 {
 		c.probe("closure>=2")
 	}
+	{
+		by, scopes := 0, map[int]bool{}
+		for fn, n := range m.ByFn {
+			if !n.Built && !cl.Fns[fn] {
+				by++
+				scopes[n.Home] = true
+			}
+		}
+		for fn, d := range m.DByFn {
+			if !d.Built && !cl.Fns[fn] {
+				by++
+				scopes[d.Scope] = true
+			}
+		}
+		if by >= 2 && len(scopes) >= 2 {
+			c.probe("bystanders>=2")
+		}
+	}
 	if len(executed) >= 3 && res.Verdict == VOK {
 		c.probe("executed>=3_ok")
 	}
@@ -944,6 +1028,9 @@ func (c *Checked) checkInvokeModel(i int, op Op, res *OpResult, evs []Event) {
 	switch v {
 	case no:
 		c.probe("invoke_missing_dependency")
+		if !m.MissingShallow(cons, lp) {
+			c.probe("missing_deep")
+		}
 		if res.Verdict == VOK {
 			c.viol(i, "missing-dependency-ignored", fmt.Sprintf("Invoke f%d from s%d succeeded although a required dependency is unavailable", inv.ID, op.Scope), "C04")
 		}
